@@ -647,10 +647,109 @@ func TestVerifC11(t *testing.T) {
 		}
 		ing.Stop()
 	}
+	// ---- keyword fields of a document that also carries an array mapped as `nested` (every element is indexed as
+	// a sub-document of its own): 0..9 elements, the array before / between / after the parent's fields, elements
+	// that hold a nested array themselves; every present keyword field - of the parent and of every element - must
+	// be indexed under its value and under _exists_. Each document goes through a fresh ingestor and through one
+	// shared by all of them (pooled processors that have / have not grown yet).
+	if !replay {
+		m, err := seq.ReadMapping([]byte("mapping-list:\n  - name: \"f\"\n    type: \"keyword\"\n  - name: \"g\"\n    type: \"keyword\"\n  - name: \"h\"\n    type: \"keyword\"\n" +
+			"  - name: \"n\"\n    type: \"nested\"\n    mapping-list:\n      - name: \"x\"\n        type: \"keyword\"\n      - name: \"z\"\n        type: \"keyword\"\n" +
+			"      - name: \"m\"\n        type: \"nested\"\n        mapping-list:\n          - name: \"y\"\n            type: \"keyword\"\n"))
+		if err != nil {
+			panic(err)
+		}
+		newIng := func(cp *capture) *bulk.Ingestor {
+			return bulk.NewIngestor(bulk.IngestorConfig{MaxInflightBulks: 4, AllowedTimeDrift: time.Hour, FutureAllowedTimeDrift: time.Hour,
+				MappingProvider: mp{m}, MaxTokenSize: 72, MaxDocumentSize: 1 << 20, DocsZSTDCompressLevel: 1, MetasZSTDCompressLevel: 1}, cp)
+		}
+		sharedCp := &capture{}
+		shared := newIng(sharedCp)
+		type kv struct{ k, v string }
+		for k := 0; k <= 9; k++ {
+			for inner := 0; inner <= 5; inner += 5 {
+				for pos := 0; pos < 3; pos++ {
+					var want []kv
+					var elems []string
+					for e := 0; e < k; e++ {
+						el := fmt.Sprintf(`"x":"e%d"`, e)
+						want = append(want, kv{"n.x", fmt.Sprintf("e%d", e)})
+						if inner > 0 && e == k/2 {
+							var ys []string
+							for y := 0; y < inner; y++ {
+								ys = append(ys, fmt.Sprintf(`{"y":"y%d"}`, y))
+								want = append(want, kv{"n.m.y", fmt.Sprintf("y%d", y)})
+							}
+							el = `"m":[` + strings.Join(ys, ",") + `],` + el + fmt.Sprintf(`,"z":"z%d"`, e)
+							want = append(want, kv{"n.z", fmt.Sprintf("z%d", e)})
+						}
+						elems = append(elems, "{"+el+"}")
+					}
+					parts := []string{`"f":"a"`, `"g":"b"`, `"h":"c"`}
+					arr := `"n":[` + strings.Join(elems, ",") + `]`
+					parts = append(parts[:pos], append([]string{arr}, parts[pos:]...)...)
+					doc := "{" + strings.Join(parts, ",") + "}"
+					want = append(want, kv{"f", "a"}, kv{"g", "b"}, kv{"h", "c"})
+					for pass, ing := range []*bulk.Ingestor{nil, shared} {
+						cp := sharedCp
+						if ing == nil {
+							cp = &capture{}
+							ing = newIng(cp)
+						}
+						sent := false
+						cp.mu.Lock()
+						cp.metas, cp.docs = nil, nil
+						cp.mu.Unlock()
+						r.Add("evaluations", 1)
+						_, err := ing.ProcessDocuments(context.Background(), time.Now(), func() ([]byte, error) {
+							if sent {
+								return nil, nil
+							}
+							sent = true
+							return []byte(doc), nil
+						})
+						cse := c11Case{Value: doc}
+						if err != nil {
+							r.Violation("document with a nested array rejected", cse, fmt.Sprintf("doc %s: %v", doc, err))
+						} else {
+							toks := map[string]map[string]bool{}
+							cp.mu.Lock()
+							for _, ms := range cp.metas {
+								for _, md := range ms {
+									for _, t := range md.Tokens {
+										if toks[string(t.Key)] == nil {
+											toks[string(t.Key)] = map[string]bool{}
+										}
+										toks[string(t.Key)][string(t.Value)] = true
+									}
+								}
+							}
+							cp.mu.Unlock()
+							for _, w := range want {
+								if !toks[w.k][w.v] {
+									r.Violation(fmt.Sprintf("document with a nested array: keyword field %s is not indexed under its value", w.k), cse, fmt.Sprintf("doc %s (pass %d: 0 fresh ingestor, 1 shared): no token %s:%s; tokens %v", doc, pass, w.k, w.v, toks))
+									break
+								}
+								if !toks[string(seq.ExistsTokenName)][w.k] {
+									r.Violation(fmt.Sprintf("document with a nested array: keyword field %s has no existence token", w.k), cse, fmt.Sprintf("doc %s (pass %d): no token _exists_:%s; tokens %v", doc, pass, w.k, toks))
+									break
+								}
+							}
+						}
+						if pass == 0 {
+							ing.Stop()
+						}
+					}
+					r.Distinct("nontrivial", "nested|"+doc)
+				}
+			}
+		}
+		shared.Stop()
+	}
 	r.Sample(c11Case{Config: cfgs[0], Value: "A /é", Query: `f:"a /é"`})
 	ev := r.Get("evaluations")
 	r.Finish(t, "model_checking",
-		fmt.Sprintf("all values of length <=%d over the 17-rune alphabet {CR LF a A 1 _ * - / space \" \\ é İ(lower-case has another width) K(Kelvin) ²(number, not digit) \\xff(invalid)} x mapping {keyword,text,path,exists,text+keyword multi-type,object->keyword,object->text+keyword multi-type,nil}, written as YAML and read by the real seq.ReadMapping, x per-type size limit {default,3} x MaxTokenSize {3,72} x case-sensitive x partial indexing; each value indexed by the real Ingestor.ProcessDocuments (metas decoded); derived queries: whole value (keyword), every maximal word within the token limit (text), every leading path (path), _exists_ (all), each in every quoting style (double, single, raw, bare when lexable), parsed by ParseSeqQL and evaluated on the emitted tokens; the double-quoted and bare spellings and the existence queries are also parsed by the legacy parser (ParseQuery) and evaluated the same way. Documents with three keyword fields carrying every ordered pair of non-string JSON values (true/false/null/numbers/arrays/objects): each field is indexed under its own JSON spelling. Over-limit values: skipped => only existence is required; partial => the cut prefix is the subject. distinct_nontrivial = distinct (config, value, query) found", maxLen),
+		fmt.Sprintf("all values of length <=%d over the 17-rune alphabet {CR LF a A 1 _ * - / space \" \\ é İ(lower-case has another width) K(Kelvin) ²(number, not digit) \\xff(invalid)} x mapping {keyword,text,path,exists,text+keyword multi-type,object->keyword,object->text+keyword multi-type,nil}, written as YAML and read by the real seq.ReadMapping, x per-type size limit {default,3} x MaxTokenSize {3,72} x case-sensitive x partial indexing; each value indexed by the real Ingestor.ProcessDocuments (metas decoded); derived queries: whole value (keyword), every maximal word within the token limit (text), every leading path (path), _exists_ (all), each in every quoting style (double, single, raw, bare when lexable), parsed by ParseSeqQL and evaluated on the emitted tokens; the double-quoted and bare spellings and the existence queries are also parsed by the legacy parser (ParseQuery) and evaluated the same way. Documents with three keyword fields carrying every ordered pair of non-string JSON values (true/false/null/numbers/arrays/objects): each field is indexed under its own JSON spelling. Documents with an array mapped as nested (0..9 elements, before / between / after the parent's keyword fields, an element holding a nested array of 5 itself; fresh and shared ingestor): every keyword field of the parent and of every element is indexed under its value and under _exists_. Over-limit values: skipped => only existence is required; partial => the cut prefix is the subject. distinct_nontrivial = distinct (config, value, query) found", maxLen),
 		map[string]any{
 			"states":                        int64(len(values)) * r.Get("configs"),
 			"transitions":                   ev,
